@@ -763,7 +763,13 @@ func (cx *Ctx) c12ImportLoops(r *Report) {
 					if os.Getenv("DEBUG_G3") != "" {
 						fmt.Fprintf(os.Stderr, "G3 %s valS=%s getters=%d\n", pfx, trunc(valS, 300), len(cx.gettersOf(m, ev.Prefix)))
 					}
-					for _, g := range cx.gettersOf(m, ev.Prefix) {
+					getters := cx.gettersOf(m, ev.Prefix)
+					for _, rd := range cx.exportedReaders(m) {
+						if contains(ev.Prefix, rd.prefix) {
+							getters = append(getters, rd.fn) // (a getter that reads through a shared helper)
+						}
+					}
+					for _, g := range getters {
 						if strings.Contains(valS, callNameOfFn(g)+"(") {
 							r.ok("G3-import-loop-key", key, ev.Pos(cx), "loop-invariant key, but the value written is computed from the value read back from the same key ("+callNameOfFn(g)+"): an accumulator, nothing is lost")
 							dep = true
